@@ -165,6 +165,27 @@ impl Out {
         }
     }
 
+    /// Used by C01 when it borrows another property's workload: of the violations reported since `from`, only those
+    /// witnessed by the panic monitor are kept.
+    pub fn keep_only_panics_since(&mut self, from: usize, count_before: u64) {
+        let mut kept = 0u64;
+        let mut i = from;
+        while i < self.violations.len() {
+            let v = &self.violations[i];
+            let is_panic = v.rule == "panic" || v.observed.starts_with("PANIC") || v.observed.contains("panicked");
+            if is_panic {
+                kept += 1;
+                i += 1;
+            } else {
+                if let Some(c) = self.per_rule.get_mut(&v.rule) {
+                    *c = c.saturating_sub(1);
+                }
+                self.violations.remove(i);
+            }
+        }
+        self.violation_count = count_before + kept;
+    }
+
     pub fn inconclusive(&mut self, what: String) {
         self.inconclusive_count += 1;
         if self.inconclusive.len() < 20 {
